@@ -121,7 +121,7 @@ type runOpts struct {
 	noFinalSweep  bool
 	keepStore     bool // leave the store open in r.store at the end
 	onStep        func(r *histRunner, i int, op *Op) error
-	afterGC       func(r *histRunner, bucket, begin, end int, before map[string][]verifkit.ScanRec) error
+	afterGC       func(r *histRunner, bucket, begin, end int, merge bool, before *gcBefore) error
 	skipReopenGC  bool
 	noCloseAtEnd  bool
 }
@@ -137,6 +137,8 @@ type histRunner struct {
 	inGrp  []bool
 
 	lastResolved Op
+	wroteUnserved map[int]bool
+	readsAny     map[string]int
 	listedAfter  int
 	prevVals     map[int][]prevVal // colliding keys: every value ever acknowledged (for the C13-merge-stale exclusion)
 	staleOK      map[int]string // key -> id of the known finding that tolerates an older own value
@@ -153,7 +155,7 @@ type histRunner struct {
 func (r *histRunner) label(l string) { r.labels[l] = true }
 
 func newRunner(h *History, opts runOpts) *histRunner {
-	r := &histRunner{h: h, opts: opts, labels: map[string]bool{}, reads: map[string]int{}, ts: 1000, excluded: map[string]int{}, prevVals: map[int][]prevVal{}, staleOK: map[int]string{}}
+	r := &histRunner{h: h, opts: opts, labels: map[string]bool{}, reads: map[string]int{}, ts: 1000, excluded: map[string]int{}, prevVals: map[int][]prevVal{}, staleOK: map[int]string{}, readsAny: map[string]int{}, wroteUnserved: map[int]bool{}}
 	r.model = make([]*mkey, len(h.Cfg.Keys))
 	for i := range r.model {
 		r.model[i] = &mkey{}
@@ -292,8 +294,10 @@ func (r *histRunner) checkGet(k int, where string) error {
 			}
 			m.Vers = []int32{p.Ver}
 		}
+		res := r.residence(bkt, pos)
+		r.readsAny[res]++
 		if m.Writes > 1 {
-			r.reads[r.residence(bkt, pos)]++
+			r.reads[res]++
 		}
 	}
 	return nil
@@ -384,6 +388,7 @@ func (r *histRunner) doSet(op *Op) error {
 	}
 	if !served {
 		r.label("set_unserved")
+		r.wroteUnserved[op.K] = true
 		return nil
 	}
 	if r.inGrp[op.K] {
@@ -845,6 +850,36 @@ func (r *histRunner) scanBucket(bkt *Bucket) map[string][]verifkit.ScanRec {
 	return out
 }
 
+// gcBefore is the state of a bucket right before a GC pass.
+type gcBefore struct {
+	recs    map[string][]verifkit.ScanRec
+	raw     map[string][]byte
+	treeHad map[int]bool // deleted keys: does the tree hold their tombstone
+	head    int
+}
+
+func (r *histRunner) snapshotForGC(bkt *Bucket) *gcBefore {
+	b := &gcBefore{recs: r.scanBucket(bkt), raw: map[string][]byte{}, treeHad: map[int]bool{}, head: bkt.datas.newHead}
+	paths, _ := filepath.Glob(filepath.Join(bkt.Home, "*.data"))
+	for _, p := range paths {
+		raw, _ := os.ReadFile(p)
+		b.raw[filepath.Base(p)] = raw
+	}
+	for k, m := range r.model {
+		if m.State == stDeleted {
+			key := r.h.Cfg.Keys[k]
+			if kb, _ := r.bucketOf(key); kb == bkt {
+				ki := newKI(key)
+				ki.KeyHash = getKeyHash(key)
+				ki.Prepare()
+				_, _, found := bkt.htree.get(ki)
+				b.treeHad[k] = found
+			}
+		}
+	}
+	return b
+}
+
 // doGC runs a GC pass (synchronously, or through the public API waiting for its end).
 func (r *histRunner) doGC(op *Op) error {
 	if err := hooks.releaseRotFlush(); err != nil {
@@ -885,9 +920,9 @@ func (r *histRunner) doGC(op *Op) error {
 			}
 		}
 	}
-	var before map[string][]verifkit.ScanRec
+	var before *gcBefore
 	if r.opts.afterGC != nil {
-		before = r.scanBucket(bkt)
+		before = r.snapshotForGC(bkt)
 	}
 	if op.ViaAPI {
 		exits := hooks.count("gc.pass.exit")
@@ -932,7 +967,7 @@ func (r *histRunner) doGC(op *Op) error {
 		r.label("gc_twice")
 	}
 	if r.opts.afterGC != nil {
-		if err := r.opts.afterGC(r, bid, begin, end, before); err != nil {
+		if err := r.opts.afterGC(r, bid, begin, end, op.Merge, before); err != nil {
 			return err
 		}
 	}
